@@ -248,7 +248,7 @@ def _ls_cases(tier):
         [(n,) for n in range(2, 9)] + [s for s in itertools.product(range(1, 5), repeat=2) if np.prod(s) > 1] + \
         [s for s in itertools.product(range(1, 4), repeat=3) if 1 < np.prod(s) <= 18]
     out = [dict(shape=s, form=f, history="fresh") for s in shapes for f in FORMULATIONS]
-    out += [dict(shape=s, form=f, history=h) for s in ((3, 2), (4,)) for f in FORMULATIONS for h in ("other-system-before", "reuse-factorisation", "reuse-on-first-call")]
+    out += [dict(shape=s, form=f, history=h) for s in ((3, 2), (4,)) for f in FORMULATIONS for h in ("other-system-before", "reuse-factorisation", "reuse-on-first-call", "rejected-call-between")]
     return out
 
 
@@ -270,11 +270,24 @@ def c08_linear_solve(ctx, shape, form, history):
     J, r = symbolic_system(ctx, w)
     # "reuse-on-first-call": a fresh object asked to reuse a factorisation it does not have yet must set one up for THIS matrix
     x, stats = w.linear_solve(J, r.copy(), reuse_solver=(history == "reuse-on-first-call"))
-    if history in ("reuse-factorisation", "reuse-on-first-call"):
+    if history == "rejected-call-between":
+        # a call with ANOTHER weighting and a right-hand side the pressure formulation documents it refuses (non-zero constraint entry) fails in between;
+        # afterwards the factorisation of the first matrix is re-used for a new right-hand side of that first matrix
+        Jb, rb = symbolic_system(ctx, w, "b")
+        rb = rb.copy()
+        rb[-1] = 1.0
+        refused = False
+        try:
+            w.linear_solve(Jb, rb)
+        except Exception:      # noqa: BLE001 - NotImplementedError in the pressure formulation; the other formulations simply solve it
+            refused = True
+    if history in ("reuse-factorisation", "reuse-on-first-call") or (history == "rejected-call-between" and refused):
         # documented reuse: same matrix, new right-hand side, cached factorisation
         f2 = ctx.array("g", (nc - 1,), sample=(-1.0, 1.0))
         r = np.concatenate([ctx.array("s", (nf,), sample=(-1.0, 1.0)), w.mass_matrix_cells.dot(np.concatenate([f2, [-sum(f2)]])), np.zeros(1)])
         x, stats = w.linear_solve(J, r.copy(), reuse_solver=True)
+    elif history == "rejected-call-between":
+        x, stats = w.linear_solve(J, r.copy())            # the call in between was served (it set up its own factorisation): solve again without reuse
     res = J.dot(x) - r
     for i in range(len(r)):
         ctx.ensure(f"row {i} of the original full system J x = r ({'flux' if i < nf else 'mass balance' if i < nf + nc else 'pressure constraint'})", eq(res[i], 0.0))
